@@ -129,7 +129,8 @@ impl Write for FaultSink {
             let buf = bufs.iter().find(|b| !b.is_empty()).map_or(&[][..], |b| &**b);
             return self.write(buf);
         }
-        let all: Vec<u8> = bufs.iter().flat_map(|b| b.iter().copied()).collect();
+        // gather at most 4 KiB per call (keeps the cost linear for byte-at-a-time schedules)
+        let all: Vec<u8> = bufs.iter().flat_map(|b| b.iter().copied()).take(4096).collect();
         self.write(&all)
     }
     fn flush(&mut self) -> io::Result<()> {
